@@ -156,7 +156,7 @@ def key_micheline(ktype, k):
 
 KTYPE_M = {'int': 'int', 'string': 'string', 'bytes': 'bytes', 'pair': '(pair int string)', 'comb4': '(pair int int int string)', 'address': 'address',
            'key_hash': 'key_hash', 'address_mix': 'address'}
-VTYPE_M = {'string': 'string', 'list_nat': '(list nat)', 'opt_unit': '(option unit)'}
+VTYPE_M = {'string': 'string', 'list_nat': '(list nat)', 'opt_unit': '(option unit)', 'unit': 'unit'}
 _ADDRS = ['tz1QBxCwcEEcvz5H5U1WkRvuGCVBFgiQGBbe', 'tz1iDKWtiNDiUJYuPv557Ag547zfS1MhZ17g', 'tz2BzLwiqRPz3nouEUdsywHpKJy9TsZWeEh3', 'tz2PYyg1yu8EgS6vDMwTu8ZrsxDEkgFwi8VJ',
           'tz3TW8qv2nGn3QnRU7TiJtu8HrZoArWJdXte', 'tz3U5FFmcM57YVo1eb7W9rkS3NbDWeE1av6X']
 
@@ -168,6 +168,8 @@ def _num(tok):
 def val_micheline(vtype, tok):
     if vtype == 'string':
         return {'string': tok}
+    if vtype == 'unit':
+        return {'prim': 'Unit'}  # the big_map-as-set idiom: one possible value
     if vtype == 'opt_unit':
         # only two values exist; they are told apart by parity of the token number
         return {'prim': 'None'} if _num(tok) % 2 else {'prim': 'Some', 'args': [{'prim': 'Unit'}]}
@@ -177,6 +179,8 @@ def val_micheline(vtype, tok):
 def val_michelson(vtype, tok):
     if vtype == 'string':
         return f'"{tok}"'
+    if vtype == 'unit':
+        return 'Unit'
     if vtype == 'opt_unit':
         return 'None' if _num(tok) % 2 else '(Some Unit)'
     return '{}' if tok.startswith('E') else '{ %d }' % _num(tok)
@@ -202,9 +206,14 @@ def gen(seed, tier):
     ktypes = {'1000': ktype, '1001': sibling if rng.random() < 0.8 else ktype}
     if rng.random() < 0.5:
         ktypes = {'1000': ktypes['1001'], '1001': ktypes['1000']}
-    vtype = rng.choice(['string', 'string', 'list_nat', 'opt_unit'])
+    vtype = rng.choice(['string', 'string', 'string', 'list_nat', 'opt_unit', 'unit'])
     nkeys = rng.choice([1, 2, 3, 4, 6])
     keys = rng.sample(UNIVERSES[ktype], min(nkeys, len(UNIVERSES[ktype])))
+    wide = ktype == 'int' and rng.random() < (0.06 if tier == 'thorough' else 0.02)
+    if wide:
+        # a wider universe and long histories: dozens of distinct keys in one local diff (beyond the statement's "small key universes";
+        # the code is size-agnostic, so this is the same requirement on a longer input)
+        keys = list(range(100, 100 + rng.choice([34, 40, 48])))
     chain0 = {}
     vn = 0
 
@@ -224,6 +233,8 @@ def gen(seed, tier):
     long_run = rng.random() < (0.15 if tier == 'thorough' else 0.03)
     if long_run:
         ntx = rng.choice([6, 9])
+    if wide:
+        ntx = rng.choice([1, 2])
     p_fail = rng.choice([0.0, 0.0, 0.15, 0.3])
     p_fault = rng.choice([0.0, 0.0, 0.2, 0.5])
     opmix = [o for o in ('get', 'mem', 'upd_some', 'upd_none', 'gau_some', 'gau_none', 'dup_drop', 'dup_keep', 'dup_both') if rng.random() < 0.75] or ['get', 'upd_some']
@@ -258,7 +269,7 @@ def gen(seed, tier):
                 lit[str(ki)] = newval('l')
             st['lit'] = lit
         steps.append(st)
-        for _ in range(rng.randint(10, 30) if long_run else rng.randint(1, 12 if tier == 'thorough' else 8)):
+        for _ in range(rng.randint(90, 140) if wide else rng.randint(10, 30) if long_run else rng.randint(1, 12 if tier == 'thorough' else 8)):
             op = rng.choice(opmix)
             s = {'op': op, 'k': rng.randrange(len(keys)), 'v': newval('v')}
             if op.startswith('dup_'):
